@@ -600,6 +600,11 @@ func TestVerifC11(t *testing.T) {
 		rep.Eval(1)
 		if out.Inconcl != "" {
 			rep.Inconclusive(fmt.Sprintf("history %d: %s", i, out.Inconcl))
+			// the invariants at every Start and grant are safety clauses over what was recorded (snapshot taken before
+			// the world is torn down): they are decided for a history that did not come to an end, too
+			for _, v := range vCheckC11Instant(t, h, out, rep) {
+				rep.Violate(v.Sig+":history-did-not-end", v.What, h, map[string]any{"events": v.Events})
+			}
 			continue
 		}
 		for _, v := range vCheckC11Instant(t, h, out, rep) {
